@@ -167,26 +167,27 @@ type World struct {
 	pools      []*pgxpool.Pool
 	actorsLive int
 
-	stMu        sync.Mutex
-	pgSeen      int
-	httpSeen    int
-	pgClasses   []string
-	httpSizes   []int
-	okOutcomes  int
-	scriptFired map[int]bool
-	c08         *c08State
-	c20         *c20State
-	mgr         *shovel.Manager
-	web         *web.Handler
-	setupPool   *pgxpool.Pool
-	c20SaveConf config.Root
-	c20Verdicts []error
-	c20Progress map[string]int64
-	pendingJump time.Duration
-	outcomeQ    []outcomeRec
-	onHookEvent func(name string, kv ...any)
-	projCache   map[string][]string
-	extra       Extra
+	stMu         sync.Mutex
+	pgSeen       int
+	httpSeen     int
+	pgClasses    []string
+	httpSizes    []int
+	okOutcomes   int
+	scriptFired  map[int]bool
+	c08          *c08State
+	c20          *c20State
+	mgr          *shovel.Manager
+	web          *web.Handler
+	setupPool    *pgxpool.Pool
+	c20SaveConf  config.Root
+	c20Verdicts  []error
+	c20Progress  map[string]int64
+	c15Submitted bool
+	pendingJump  time.Duration
+	outcomeQ     []outcomeRec
+	onHookEvent  func(name string, kv ...any)
+	projCache    map[string][]string
+	extra        Extra
 }
 
 // Extra lets property packages add checks.
